@@ -108,7 +108,8 @@ def _setup(en):
   en.contracts[E._callable_key(sc.centered_vertical_advection)] = lambda en_, w, x, coords, **k: W.VADV(w, x)
   en.contracts[E._callable_key(pe.State)] = lambda en_, **kw: mkstate(**kw)
   en.contracts[E._callable_key(pe.StateWithTime)] = lambda en_, **kw: mkstate(**kw)
-  en.contracts[E._callable_key(pe.get_geopotential_diff)] = lambda en_, t, coords, r=None, **k: W.SCALE(E._real(r), GEO(t))
+  # the real default of `ideal_gas_constant` is a bare number (the constant non-dimensionalised under the default scale): kept as such
+  en.contracts[E._callable_key(pe.get_geopotential_diff)] = lambda en_, t, coords, r=pe.IDEAL_GAS_CONSTANT, **k: W.SCALE(E._real(r), GEO(t))
   en.trusted.add('callee contract: get_geopotential_diff(T, ., R) == R * (a linear operator on the level axis)(T): C03 / C13')
   en.contracts[E._callable_key(pe.DiagnosticState)] = lambda en_, **kw: E.Obj(**kw)
   _reg(en, np.cumsum, lambda en_, x, *a, **k: Marker('sigma_half') if isinstance(x, Marker) else (_ for _ in ()).throw(E.Unsupported('cumsum')), 'np.cumsum(layer_thickness): the half-level sigma values')
@@ -223,6 +224,155 @@ def shallow_water_equivariance_contract(en: E.Engine):
       ok, why = alg.equal(getattr(ftx, f), img)
       en.results.append(E.ObligationResult(f'shallow water, {sym}: explicit_terms(T x).{f} == T explicit_terms(x).{f}', 'valid' if ok else 'invalid',
                                            back_end='multilinear-normal-form', detail=why))
+
+
+# ---- C12: dimensional homogeneity of the tendencies (scale invariance) ---------------------------------------------------------------------
+
+import fractions
+
+DIM0 = (0, 0, 0)          # exponents of (length, time, temperature)
+LEN, TIME, TEMP = (1, 0, 0), (0, 1, 0), (0, 0, 1)
+
+
+def _dmul(*ds):
+  return tuple(sum(d[i] for d in ds) for i in range(3))
+
+
+def _dinv(d):
+  return tuple(-x for x in d)
+
+
+RGAS = _dmul((2, 0, 0), (0, -2, 0), (0, 0, -1))            # J / (kg K) = L^2 T^-2 K^-1
+SCALAR_DIMS = {'radius': LEN, 'ideal_gas_constant': RGAS, 'R_vapor': RGAS, 'Cp': RGAS, 'Cp_vapor': RGAS, 'gravity': (1, -2, 0), 'kappa': DIM0}
+ATOM_DIMS = {'zeta': (0, -1, 0), 'delta': (0, -1, 0), 'T': TEMP, 'lnps': DIM0, 'q': DIM0, 'phi': (2, -2, 0), 'orography': None, 'coriolis_parameter': (0, -1, 0),
+             'sec2_lat': DIM0, 'sigma_half_levels': DIM0, 'T_ref': TEMP, 'nodal_one': DIM0}
+# operators that carry a dimension of their own (by their contracts: the Laplacian eigenvalues are -l(l+1)/radius^2, C02); all others are dimensionless maps
+OP_DIMS = {'laplacian': (-2, 0, 0), 'inverse_laplacian': (2, 0, 0)}
+
+
+class DimensionError(Exception):
+  pass
+
+
+def scalar_dim(t):
+  if z3.is_rational_value(t) or z3.is_int_value(t):
+    return DIM0
+  k, ch = t.decl().kind(), t.children()
+  if k in (z3.Z3_OP_ADD, z3.Z3_OP_SUB):
+    ds = {scalar_dim(c) for c in ch}
+    if len(ds) != 1:
+      raise DimensionError(f'scalars of different dimensions are added: {t}')
+    return ds.pop()
+  if k == z3.Z3_OP_MUL:
+    return _dmul(*[scalar_dim(c) for c in ch])
+  if k == z3.Z3_OP_DIV:
+    return _dmul(scalar_dim(ch[0]), _dinv(scalar_dim(ch[1])))
+  if k in (z3.Z3_OP_UMINUS, z3.Z3_OP_TO_REAL):
+    return scalar_dim(ch[0])
+  if k == z3.Z3_OP_UNINTERPRETED and not ch:
+    if str(t) in SCALAR_DIMS:
+      return SCALAR_DIMS[str(t)]
+  raise DimensionError(f'no dimension known for scalar {t}')
+
+
+def field_dim(t, atom_dims):
+  name, ch = t.decl().name(), t.children()
+  if not ch:
+    d = atom_dims.get(str(t))
+    if d is None:
+      raise DimensionError(f'no dimension given for field {t}')
+    return d
+  if name in ('fld_add', 'fld_sub'):
+    da, db = field_dim(ch[0], atom_dims), field_dim(ch[1], atom_dims)
+    if da != db:
+      raise DimensionError(f'terms of dimensions {da} and {db} (length, time, temperature exponents) are added: {str(ch[0])[:160]}  +/-  {str(ch[1])[:160]}')
+    return da
+  if name == 'fld_neg':
+    return field_dim(ch[0], atom_dims)
+  if name == 'fld_scale':
+    return _dmul(scalar_dim(ch[0]), field_dim(ch[1], atom_dims))
+  if name == 'fld_div':
+    return _dmul(field_dim(ch[0], atom_dims), _dinv(scalar_dim(ch[1])))
+  if name in ('nodal_mul', 'vertical_advection'):
+    return _dmul(field_dim(ch[0], atom_dims), field_dim(ch[1], atom_dims))
+  if name == 'nodal_reciprocal':
+    return _dinv(field_dim(ch[0], atom_dims))
+  if name == 't_omega_over_sigma_sp':
+    dg, dv = field_dim(ch[1], atom_dims), field_dim(ch[2], atom_dims)
+    if dg != dv:
+      raise DimensionError(f'omega term: G and v.grad(ln ps) have dimensions {dg} and {dv}')
+    return _dmul(field_dim(ch[0], atom_dims), dg)
+  if len(ch) == 1:
+    return _dmul(OP_DIMS.get(name, DIM0), field_dim(ch[0], atom_dims))
+  raise DimensionError(f'operator {name} has no dimension rule')
+
+
+def dimension_contract(en: E.Engine, which='dry'):
+  """Every explicit tendency is dimensionally homogeneous, with the dimension of its field per unit time: length, time and temperature
+  exponents are propagated through the operator expression computed from the real source; two terms of different dimensions can never be added.
+  A dimensionally homogeneous expression takes the same physical value in every system of units: scales only relabel numbers."""
+  W._neg_fix(en)
+  g, r = _grid(en)
+  C = lambda nm: z3.Const(nm, Fld)
+  en.cover('requires: radius > 0')
+  per_time = lambda d: _dmul(d, (0, -1, 0))
+  if which == 'shallow':
+    from dinosaur import shallow_water as sw
+    self = E.Obj(class_ref=sw.ShallowWaterEquations, coords=E.Obj(horizontal=g), orography=W.ORO, coriolis_parameter=W.CORIOLIS,
+                 density_ratios=z3.Const('density_ratios', z3.DeclareSort('LayerMatrix')))
+    kind, out = en.invoke(en.getattr(self, 'explicit_terms'), E.Obj(vorticity=C('zeta'), divergence=C('delta'), potential=C('phi')))
+    if kind == 'raise':
+      raise E.Unsupported(f'explicit_terms raised {out}')
+    dims = dict(ATOM_DIMS, orography=(2, -2, 0))            # shallow water: the orography is a geopotential
+    fields = [('vorticity', out.vorticity, ATOM_DIMS['zeta']), ('divergence', out.divergence, ATOM_DIMS['delta']), ('potential', out.potential, ATOM_DIMS['phi'])]
+  else:
+    moist = which == 'moist'
+    qname = 'specific_humidity' if moist else 'q'
+    if moist:
+      en.assume(z3.And(z3.Real('Cp') > 0, z3.Real('ideal_gas_constant') > 0))
+    st = mkstate(vorticity=C('zeta'), divergence=C('delta'), temperature_variation=C('T'), log_surface_pressure=C('lnps'), tracers={qname: C('q')},
+                 **({'sim_time': en.real('sim_time')} if moist else {}))
+    out = _run_primitive(en, g, st, W.ORO, moist)
+    dims = dict(ATOM_DIMS, orography=LEN)                   # primitive equations: the orography is a height (multiplied by g in the code)
+    fields = [('vorticity', out.vorticity, ATOM_DIMS['zeta']), ('divergence', out.divergence, ATOM_DIMS['delta']), ('temperature_variation', out.temperature_variation, TEMP),
+              ('log_surface_pressure', out.log_surface_pressure, DIM0), (f'tracer {qname}', out.tracers[qname], DIM0)]
+  for nm, term, d in fields:
+    try:
+      got = field_dim(term, dims)
+      ok, why = got == per_time(d), f'dimension (length, time, temperature) = {got}, expected {per_time(d)}'
+    except DimensionError as e:
+      ok, why = False, str(e)
+    en.results.append(E.ObligationResult(f'{which}: the {nm} tendency is dimensionally homogeneous with dimension [{nm}] / time', 'valid' if ok else 'invalid', back_end='dimension-typing', detail=why))
+
+
+def dimension_canary(en: E.Engine):
+  """Must fail: with the orography taken as a geopotential (as in shallow water) the primitive divergence tendency is not homogeneous."""
+  W._neg_fix(en)
+  g, r = _grid(en)
+  C = lambda nm: z3.Const(nm, Fld)
+  st = mkstate(vorticity=C('zeta'), divergence=C('delta'), temperature_variation=C('T'), log_surface_pressure=C('lnps'), tracers={'q': C('q')})
+  out = _run_primitive(en, g, st, W.ORO)
+  try:
+    field_dim(out.divergence, dict(ATOM_DIMS, orography=(2, -2, 0)))
+    ok, why = True, 'homogeneous'
+  except DimensionError as e:
+    ok, why = False, str(e)
+  en.results.append(E.ObligationResult('canary: divergence tendency homogeneous with the orography as a geopotential', 'valid' if ok else 'invalid', back_end='dimension-typing', detail=why))
+
+
+def dimension_clauses():
+  rc = lambda c, n=2, **kw: (lambda ctx: run_contract((lambda en: c(en, **kw)) if kw else c, min_obligations=n, setup=_setup, timeout_ms=30000, max_paths=50))
+  P = 'dinosaur.primitive_equations.'
+  return [
+      Clause('smt:dry explicit tendencies are dimensionally homogeneous ([field] / time) as operator expressions: invariant under a change of units (all fields, sizes)', 'smt',
+             [P + 'PrimitiveEquations.explicit_terms', P + 'compute_diagnostic_state'], rc(dimension_contract, 5, which='dry'), group='pyvc'),
+      Clause('smt:moist explicit tendencies are dimensionally homogeneous ([field] / time) as operator expressions (all fields, sizes)', 'smt',
+             [P + 'MoistPrimitiveEquations.explicit_terms'], rc(dimension_contract, 5, which='moist'), group='pyvc'),
+      Clause('smt:shallow-water explicit tendencies are dimensionally homogeneous ([field] / time) as operator expressions (all fields, sizes)', 'smt',
+             ['dinosaur.shallow_water.ShallowWaterEquations.explicit_terms'], rc(dimension_contract, 3, which='shallow'), group='pyvc'),
+      Clause('canary:primitive divergence tendency homogeneous with the orography as a geopotential must fail', 'smt', [P + 'PrimitiveEquations.orography_tendency'],
+             rc(dimension_canary, 1), canary=True, group='pyvc'),
+  ]
 
 
 def canary_contract(en: E.Engine):
